@@ -132,7 +132,7 @@ func (fr *Frame) bigCall(st *State, fn *ssa.Function, args []Value) (Value, bool
 	case "Mod": // Euclidean modulus (result in [0, |m|)); m == 0 panics
 		m := ld(2)
 		fr.oblige(st, "bigdiv", F.Not(F.Eq(m, F.I64(0))), "big.Int.Mod by zero")
-		r := F.App("big.mod", SInt, ld(1), m)
+		r := bigModTerm(F, ld(1), m)
 		st.pc = F.And(st.pc, F.Le(F.I64(0), r), F.Lt(r, abs(m))) // documented range of the Euclidean modulus
 		return set(r)
 	case "Div": // Euclidean division (the quotient that goes with Mod); y == 0 panics
@@ -231,8 +231,13 @@ func (fr *Frame) bigCall(st *State, fn *ssa.Function, args []Value) (Value, bool
 		st.mem[o] = &ArrV{Arr: arr, Elem: types.Typ[types.Uint]}
 		n := F.FreshRanged("big.Bits!len", big.NewInt(0), bigMaxLen)
 		st.pc = F.And(st.pc, F.Eq(F.App("big.fromwords", SInt, arr, F.I64(0), n), abs(ld(0))))
+		// the word slice of a big.Int is normalised (no leading zero word: documented invariant of math/big's nat):
+		// more than k words means |x| >= 2^(64k); stated for k = 0..16, which covers every element size here
+		for k := 0; k <= 16; k++ {
+			st.pc = F.And(st.pc, F.Or(F.Le(n, F.I64(int64(k))), F.Le(F.Int(pow2(64*k)), abs(ld(0)))))
+		}
 		used()
-		v.assume("math/big: x.Bits() is treated as a fresh slice holding the little-endian 64-bit words of |x| (big.fromwords(w, 0, len(w)) == |x|; the slice really aliases x's storage: callers under contract only read it)")
+		v.assume("math/big: x.Bits() is treated as a fresh slice holding the little-endian 64-bit words of |x| (big.fromwords(w, 0, len(w)) == |x|, normalised: more than k words only if |x| >= 2^(64k); the slice really aliases x's storage: callers under contract only read it)")
 		return &SliceV{Obj: o, Off: F.I64(0), Len: n, Cap: n}, true
 	case "ModSqrt": // z = a square root of x mod p when one exists (then z is returned), otherwise nil and z unchanged
 		x, pm := ld(1), ld(2)
@@ -269,4 +274,16 @@ func (fr *Frame) asTerm(x Value) *Term {
 		unsup("expected a scalar argument, got %T", x)
 	}
 	return t
+}
+
+// bigModTerm is the Euclidean remainder big.Int.Mod computes, as the symbol big.mod(x, m); for a constant positive
+// modulus its meaning is attached as a definitional fact: it is SMT-LIB's mod (0 <= r < m, x = m*(x div m) + r).
+func bigModTerm(F *Factory, x, m *Term) *Term {
+	r := F.App("big.mod", SInt, x, m)
+	if m.IsConst() && m.K.Sign() > 0 {
+		if _, done := F.Defs[r]; !done {
+			F.AddDef(r, F.Eq(r, F.Mod(x, m)))
+		}
+	}
+	return r
 }
